@@ -237,6 +237,38 @@ func trigger(r msgRow, eo []z.ExecOption) []*z.ZogIssue {
 		req, _ := http.NewRequest("POST", "/x", bytes.NewReader([]byte("a=%zz")))
 		req.Header.Set("Content-Type", "application/x-www-form-urlencoded")
 		return flat(z.Struct(z.Schema{"a": z.Int()}).Parse(zhttp.Request(req), &d, eo...))
+	case "struct.ptr.invalid_json":
+		var p *struct{ A int }
+		req, _ := http.NewRequest("POST", "/x", bytes.NewReader([]byte("{broken")))
+		req.Header.Set("Content-Type", "application/json")
+		return flat(z.Ptr(z.Struct(z.Schema{"a": z.Int()})).Parse(zhttp.Request(req), &p, eo...))
+	case "struct.ptr.invalid_form":
+		var p *struct{ A int }
+		req, _ := http.NewRequest("POST", "/x", bytes.NewReader([]byte("a=%zz")))
+		req.Header.Set("Content-Type", "application/x-www-form-urlencoded")
+		return flat(z.Ptr(z.Struct(z.Schema{"a": z.Int()})).Parse(zhttp.Request(req), &p, eo...))
+	case "number.validate.gt":
+		v := 1
+		return z.Int().GT(5, o...).Validate(&v, eo...)
+	case "number.struct.validate.gt":
+		v := struct{ A int }{1}
+		return flat(z.Struct(z.Schema{"a": z.Int().GT(5, o...)}).Validate(&v, eo...))
+	case "number.slice.validate.gt":
+		v := []int{1}
+		return flat(z.Slice(z.Int().GT(5, o...)).Validate(&v, eo...))
+	case "number.ptr.validate.gt":
+		x := 1
+		v := &x
+		return flat(z.Ptr(z.Int().GT(5, o...)).Validate(&v, eo...))
+	case "number.preprocess.parse.gt":
+		var v int
+		return z.Preprocess(func(s string, ctx z.Ctx) (int, error) { return len(s), nil }, z.Int().GT(5, o...)).Parse("ab", &v, eo...)
+	case "number.preprocess.validate.gt":
+		v := 1
+		return z.Preprocess(func(p *int, ctx z.Ctx) (int, error) { return *p, nil }, z.Int().GT(5, o...)).Validate(&v, eo...)
+	case "custom.custom.validate":
+		v := url.URL{Host: "h"}
+		return z.CustomFunc(func(p *url.URL, ctx z.Ctx) bool { return false }, o...).Validate(&v, eo...)
 	case "string.ptr.not_nil":
 		var p *string
 		return flat(z.Ptr(z.String()).NotNil(o...).Parse(nil, &p, eo...))
@@ -470,7 +502,7 @@ func cmdMsgTab(args []string) {
 				keys = append(keys, k)
 			}
 			sort.Strings(keys)
-			o := msgObs{ID: fmt.Sprintf("m%d", n), Row: r.ID, Code: i.Code, Dtype: i.Dtype, Params: keys, HasValue: i.Value != nil || r.Test == "required" || strings.HasSuffix(r.Test, "not_nil") || strings.HasPrefix(r.Test, "invalid_"), // absent values / undecodable bodies have no value to point at
+			o := msgObs{ID: fmt.Sprintf("m%d", n), Row: r.ID, Code: i.Code, Dtype: i.Dtype, Params: keys, HasValue: i.Value != nil || r.Test == "required" || strings.HasSuffix(r.Test, "not_nil") || strings.Contains(r.Test, "invalid_"), // absent values / undecodable bodies have no value to point at
 				Msg: i.Message, Placeholder: strings.Contains(i.Message, "{{"), Src: msgSource(i.Message)}
 			b, _ := json.Marshal(o)
 			w.Write(b)
